@@ -39,11 +39,11 @@ MODEL = {
     # property -> (quick configs, extra thorough configs)
     "C01": (["diamond", "join_single"], ["chain", "fork_oc", "two_long", "batch", "cross"]),
     "C02": (["chain", "join_single"], ["diamond", "fork_oc", "two_long", "batch", "cross"]),
-    "C03": (["two_long", "batch"], ["chain", "fork_oc", "diamond", "join_single", "cross"]),
+    "C03": (["two_long", "batch"], ["chain", "fork_oc", "diamond", "join_single", "cross", "deep"]),
     "C04": (["fork_oc", "press"], ["chain", "two_long", "diamond", "batch"]),
     "C05": (["join_single", "diamond"], ["chain", "fork_oc", "cross"]),
-    "C09": (["fork_oc", "join_single"], ["chain", "two_long", "diamond", "batch", "cross"]),
-    "C10": (["two_long", "chain"], ["fork_oc", "diamond", "batch", "cross"]),
+    "C09": (["fork_oc", "join_single"], ["chain", "two_long", "diamond", "batch", "cross", "deep5"]),
+    "C10": (["two_long", "chain"], ["fork_oc", "diamond", "batch", "cross", "deep5"]),
     "C11": (["press", "fork_oc"], ["chain", "two_long"]),
 }
 MIX = {
